@@ -47,6 +47,35 @@ class Summary:
         return (tuple(sorted(s.mut)), tuple(sorted(s.ret)), tuple(sorted(s.ret_shell)), tuple(sorted(s.globals_w)), tuple(sorted(s.self_w)))
 
 
+def construction_only_methods(prog):
+    """qualified names of private methods that are reachable only from the initialiser of their own class (directly or through other such
+    methods) and are mentioned nowhere else in the package: they are construction code"""
+    by_cls = {}
+    for q, f in prog.funcs.items():
+        if f.cls is not None and f.parent is None and isinstance(f.node, ast.FunctionDef): by_cls.setdefault((f.mod.name, f.cls.name), {})[f.node.name] = (q, f)
+    out = set()
+    for (mn, cn), meths in by_cls.items():
+        calls = {n_: {x.func.attr for x in ast.walk(f.node) if isinstance(x, ast.Call) and isinstance(x.func, ast.Attribute) and isinstance(x.func.value, ast.Name)
+                      and x.func.value.id == (params_of(f.node)[0] or ['self'])[0] and x.func.attr in meths} for n_, (q, f) in meths.items()}
+        cand = {n_ for n_ in meths if n_.startswith('_') and not n_.startswith('__')}
+        changed = True
+        ok = set()
+        while changed:
+            changed = False
+            for n_ in sorted(cand - ok):
+                callers = {c_ for c_, cs in calls.items() if n_ in cs and c_ != n_}
+                if callers and all(c_ in INIT_METHODS or c_ in ok for c_ in callers): ok.add(n_); changed = True
+        for n_ in sorted(ok):
+            # mentioned anywhere else (another class, a free function, a bound-method value)?  then it is not construction-only
+            elsewhere = False
+            for q2, f2 in prog.funcs.items():
+                if f2.cls is not None and (f2.mod.name, f2.cls.name) == (mn, cn) and getattr(f2.node, 'name', '') in (INIT_METHODS | ok): continue
+                if any(isinstance(x, ast.Attribute) and x.attr == n_ for x in ast.walk(f2.node)): elsewhere = True; break
+            if not elsewhere: out.add(meths[n_][0])
+    return out
+
+
+
 class Effects:
     def __init__(s, prog: Program):
         s.prog = prog
@@ -61,6 +90,7 @@ class Effects:
             if f.cls is not None and isinstance(f.node, ast.FunctionDef) and prog.is_property(f.node):
                 s.by_property.setdefault(f.node.name, []).append(q)
         s.partial_bindings = s._collect_partials()
+        s.construction_only = construction_only_methods(prog)
         s.iterations = 0
 
     # ------------------------------------------------------------------ partial(f, kw=g) bindings found anywhere in the package
@@ -393,8 +423,9 @@ class _Ctx:
         if o[0] == 'P':
             if o[1] == c.self_name and c.is_method:
                 # writes through self: allowed in init methods (object under construction)
-                if c.f.node.name in INIT_METHODS and how == 'store' and isinstance(node, (ast.Assign, ast.AnnAssign, ast.AugAssign)) and _direct_self_store(node, c.self_name): return
-                if c.f.node.name in INIT_METHODS and c.f.cls is not None and not c.eff.prog.is_dataclass(c.f.cls): return    # hand-written __init__ builds its own fields
+                is_init_ = c.f.node.name in INIT_METHODS or c.eff.node2qual.get(id(c.f.node)) in c.eff.construction_only
+                if is_init_ and how == 'store' and isinstance(node, (ast.Assign, ast.AnnAssign, ast.AugAssign)) and _direct_self_store(node, c.self_name): return
+                if is_init_ and c.f.cls is not None and not c.eff.prog.is_dataclass(c.f.cls): return    # hand-written __init__ builds its own fields
                 c.selfw.setdefault(how + ':' + ast.unparse(node)[:40], c.site(node, how)); c.mut.setdefault(o[1], c.site(node, how)); return
             c.mut.setdefault(o[1], c.site(node, how))
         elif o[0] == 'E':
